@@ -495,6 +495,16 @@ class Model:
             return out
         if isinstance(v, (ast.List, ast.Tuple)):
             return [self.lit(cl.mod, e) for e in v.elts]
+        # list(Other._props) / [*Other._props] / sorted(Other._props): the key names of another class's table
+        if isinstance(v, ast.Call) and isinstance(v.func, ast.Name) and v.func.id in ("list", "tuple", "sorted") and \
+                len(v.args) == 1 and isinstance(v.args[0], ast.Attribute) and v.args[0].attr == "_props":
+            r = self.resolve_expr(cl.mod, v.args[0].value, c)
+            if r and r[0] == "class":
+                other = self._own_props_literal(r[1])
+                if isinstance(other, dict):
+                    return list(other.keys())
+                if isinstance(other, list):
+                    return list(other)
         raise AnalysisError(f"{c}._props: unsupported literal shape {type(v).__name__}")
 
     def _getattr_props(self, c: str, merged_fn):
